@@ -3,16 +3,20 @@
 Sub-checks
   read     object graphs (shared nodes, back-edges / cycles, strings, sets, tuples, attribute objects,
            containers whose element access or iteration raises, list / tuple / namedtuple subclasses whose
-           instances have a __dict__, mappings that re-order themselves when read) x paths with 1-3 wildcards at every
-           position, spelled as dotted string, Path(..., T.__star__(), ...) and pure T, followed by
-           ordinary segments that exist only under some entries
-  mutate   Assign / Delete through 1-3 wildcards on recording containers
+           instances have a __dict__, mappings that re-order themselves when read, keyed stores of a type that is not
+           a dict and is registered with keys= / get= whose reads re-order or extend them, attribute objects whose
+           attribute reads re-order or extend their own __dict__, instances of str / bytes / int / float subclasses
+           that carry instance attributes) x paths with 1-3 wildcards at every position, spelled as dotted string,
+           Path(..., T.__star__(), ...) and pure T, followed by ordinary segments that exist only under some entries
+  mutate   Assign / Delete through 1-3 wildcards on recording containers (inner nodes also: list subclasses with a
+           __dict__, self-re-ordering mappings, str / int / ... subclass instances whose attributes hold the sub-trees)
 
 Oracle: refstar() - breadth-first enumeration with an identity-keyed visited set that includes the start value.
 Termination is decided without a clock: every container of the generated graph is a recording
 subclass sharing one access log with a budget; exceeding it raises a BaseException.
 """
 import os
+import operator
 import collections
 from reprlib import recursive_repr
 
@@ -23,14 +27,17 @@ from glom import Path, T, GlomError, PathAccessError, Assign, Delete
 
 from .. import boot
 from .. import fuzzrun
-from ..runner import Sub, Mismatch
+from ..runner import Sub, Mismatch, HarnessBug
 from .. import targets as tg
 
 PROPERTY = 'C14'
 RULE = ('graphs: recipes over recording dict/list/object containers, tuples, sets, strings and atoms with shared '
         'nodes and back-edges (cycles to the root or an inner node), plus containers whose item access / iteration raises, '
         'list / tuple / namedtuple subclasses whose instances have a __dict__ (with and without instance attributes) and '
-        'OrderedDict subclasses that move a key to the end when it is read (the LRU recipe); '
+        'OrderedDict subclasses that move a key to the end when it is read (the LRU recipe), keyed stores that are no dict subclass '
+        '(known to a Glommer through register(keys=, get=)) and attribute objects whose element read moves the key to the end / the '
+        'front or adds an entry to the container being read, instances of str / bytes / int / float subclasses with instance '
+        'attributes (attribute-style objects that are also "scalars"); '
         'paths: 1-4 segments with 1-3 wildcards (* and **, at most one **-after-** to bound output size) in string, Path and T '
         'spelling. Non-trivial = graph with a shared or cyclic node, or >= 2 wildcards, or a miss after a wildcard.')
 ASSUMPTIONS = [
@@ -41,6 +48,12 @@ ASSUMPTIONS = [
     'attribute-bearing and iterable are not generated (the statement does not order the two readings)',
     'a mapping that re-orders itself when read has one child per key, in the order of the keys when the step starts; the reference keeps '
     'its own model of the key order (reads in path order, entry by entry) and never reads through the mapping\'s own __getitem__',
+    'the same holds for a container whose read EXTENDS it (a store or attribute object that notes its first read in an entry of '
+    'its own): one child per key present when the step starts; what a read adds is a child for the steps that start later',
+    'an instance of a str / bytes / int / float subclass that has a __dict__ is an attribute-style object: str / bytes are not '
+    'iterated and numbers are not iterable, so "attribute values" is the only reading the statement offers; its children are '
+    'the values of its instance attributes, for * and for ** alike, wherever ** meets it',
+    'a type registered with keys= and get= (Glommer.register) is walked by its keys, one child get(value, key) per key',
     'S-rooted wildcards are outside the statement (targets only)',
 ]
 BUDGET = 40000
@@ -118,9 +131,103 @@ class LRU(tg.OrderedDict):
     __hash__ = None
 
 
+def read_effect(mode, d, k):
+    """what a successful read of d[k] does to the storage d of a self-modifying fixture (Store, TouchObj); a failing read
+    raises KeyError before anything is changed.  The fixtures apply it to their real storage, the reference to its own copy"""
+    val = d[k]
+    if mode == 'mte':                   # least-recently-used order: the key that was read moves to the end
+        d[k] = d.pop(k)
+    elif mode == 'mtf':                 # most-recently-used first
+        d.move_to_end(k, last=False)
+    elif mode == 'mark':                # the first read is noted in an entry of the container itself
+        d.setdefault('seen', True)
+    else:
+        raise ValueError('bad mode %r' % (mode,))
+    return val
+
+
+class Store(object):
+    """a keyed store that is NOT a dict (sub)class and not iterable: glom knows it only through
+    Glommer.register(Store, keys=Store.keys, get=operator.getitem).  keys() is a live view of the underlying OrderedDict,
+    as dict.keys() is; a read re-orders or extends the store (read_effect)"""
+    __slots__ = ('_d', '_mode', '_log', '_nid')
+
+    def __init__(self, mode):
+        self._d = tg.OrderedDict()
+        self._mode = mode
+        self._log = None
+        self._nid = None
+
+    def keys(self):
+        return self._d.keys()
+
+    def __getitem__(self, k):
+        if self._log is not None:
+            self._log.append((self._nid, 'getitem', k))
+        return read_effect(self._mode, self._d, k)
+
+    @recursive_repr()
+    def __repr__(self):
+        return 'Store[%s](%s)' % (self._mode, ', '.join('%s=%r' % kv for kv in self._d.items()))
+
+    __hash__ = None
+
+
+class TouchObj(tg.RecObj):
+    """an attribute-style object whose reads of public attributes re-order or extend its own __dict__ (an auditing /
+    lazily initialising __getattribute__)"""
+    __slots__ = ('_mode',)
+
+    def __getattribute__(self, name):
+        if name.startswith('_'):
+            return object.__getattribute__(self, name)
+        tg.RecObj.__getattribute__(self, name)          # (logs the read; AttributeError for a missing attribute)
+        return read_effect(object.__getattribute__(self, '_mode'), object.__getattribute__(self, '__dict__'), name)
+
+    @recursive_repr()
+    def __repr__(self):
+        return 'TouchObj[%s](%s)' % (self._mode, ', '.join('%s=%r' % kv for kv in self.__dict__.items()))
+
+
+SELFMOD = (Store, TouchObj)
+
+
+class Tag(str):
+    """a 'smart string': a str subclass whose instances carry attributes"""
+
+
+class Blob(bytes):
+    """a bytes subclass whose instances carry attributes"""
+
+
+class Px(int):
+    """a number with attributes (as IntEnum-like members are)"""
+
+
+class Ratio(float):
+    """a float subclass whose instances carry attributes"""
+
+
+SCALSUB = (Tag, Blob, Px, Ratio)
+SCALSUB_TAGS = {'sstr': Tag, 'sbytes': Blob, 'sint': Px, 'sfloat': Ratio}
+
+_GLOMMER = []
+
+
+def glommer():
+    """the Glommer that knows Store (made on first use; the module-level registry is left alone)"""
+    if not _GLOMMER:
+        gl = glom.Glommer()
+        gl.register(Store, keys=Store.keys, get=operator.getitem)
+        _GLOMMER.append(gl)
+    return _GLOMMER[0]
+
+
 def build_graph(r):
-    """tg recipe extended with ["edict", entries], ["eiter"], ["lru", entries] and the sequence subclasses
-    ["lsub", items, attrs], ["tsub", items, attrs], ["ntsub", [x, y], attrs] (attrs: [[name, R], ...] instance attributes)"""
+    """tg recipe extended with ["edict", entries], ["eiter"], ["lru", entries], the sequence subclasses
+    ["lsub", items, attrs], ["tsub", items, attrs], ["ntsub", [x, y], attrs] (attrs: [[name, R], ...] instance attributes),
+    the self-modifying ["store", mode, entries] / ["tobj", mode, attrs] and the scalar subclasses
+    ["sstr", text, attrs], ["sbytes", latin1-text, attrs], ["sint", n, attrs], ["sfloat", x, attrs]"""
     b = tg.Built()
     b.obj = _build(r, b)
     b.log.budget = BUDGET
@@ -146,6 +253,32 @@ def _build(r, b):
         for k, v in r[1]:
             tg.OrderedDict.__setitem__(c, k, _build(v, b))
         c._log, c._nid = b.log, nid
+        return c
+    if (tag == 'store' and r[1] not in STORE_MODES) or (tag == 'tobj' and r[1] not in TOBJ_MODES):
+        raise HarnessBug('bad mode in recipe %r' % (r[:2],))
+    if tag == 'store':
+        c = Store(r[1])
+        nid = len(b.nodes)
+        b.nodes.append(c)
+        for k, v in r[2]:
+            c._d[k] = _build(v, b)
+        c._log, c._nid = b.log, nid
+        return c
+    if tag == 'tobj':
+        c = TouchObj()
+        object.__setattr__(c, '_mode', r[1])
+        nid = len(b.nodes)
+        b.nodes.append(c)
+        for k, v in r[2]:
+            c.__dict__[k] = _build(v, b)
+        object.__setattr__(c, '_log', b.log)
+        object.__setattr__(c, '_nid', nid)
+        return c
+    if tag in SCALSUB_TAGS:
+        c = SCALSUB_TAGS[tag](r[1].encode('latin1') if tag == 'sbytes' else r[1])
+        b.nodes.append(c)
+        for k, v in r[2]:
+            c.__dict__[k] = _build(v, b)
         return c
     if tag == 'lsub':
         c = SubList()
@@ -207,11 +340,15 @@ KEYS = ['a', 'b', 'k', 'z']
 
 
 ATTRS = ['a', 'p']          # instance attributes of the sequence subclasses ('a' is also a path segment)
+STORE_MODES = ['mte', 'mte', 'mtf', 'mark']
+TOBJ_MODES = ['mark', 'mark', 'mte']
+SCALSUB_VALUES = [['sstr', 'xy'], ['sstr', 'h1'], ['sstr', ''], ['sint', 0], ['sint', 7], ['sint', 7], ['sfloat', 2.5], ['sbytes', 'x']]
 
 
 def gen_graph(draw, depth=4, ext=False):
-    """ext=True adds the classes LRU / SubList / SubTuple / Pt as nodes anywhere in the graph (every draw they need is made
-    only then: the stream of the callers in other modules, which use the default, is unchanged)"""
+    """ext=True adds the classes LRU / Store / TouchObj / SubList / SubTuple / Pt and the scalar subclasses Tag / Blob / Px /
+    Ratio as nodes anywhere in the graph (every draw they need is made only then: the stream of the callers in other
+    modules, which use the default, is unchanged)"""
     count = [0]
 
     def attrs(d):
@@ -228,12 +365,29 @@ def gen_graph(draw, depth=4, ext=False):
         r = draw(st.integers(0, 99))
         if count[0] and r < 14:
             return ['ref', draw(st.integers(0, count[0] - 1))]
+        if ext and r < 32 and draw(st.sampled_from(range(3))) == 0:
+            # a "scalar" with instance attributes; below the root by construction, so a ** meets it as a descendant
+            count[0] += 1
+            tag, val = draw(st.sampled_from(SCALSUB_VALUES))
+            ks = draw(st.sampled_from([[], ['a'], ['p'], ['a'], ['a', 'p'], ['p', 'a']]))
+            return [tag, val, [[k, node(d - 1)] for k in ks]]
         if d <= 0 or r < 32:
             return atom()
-        if ext and r < 60 and draw(st.sampled_from(range(4))) == 0:
+        sel = draw(st.sampled_from(range(12))) if ext and r < 60 else None
+        if sel is not None and sel < 3:
             count[0] += 1
             ks = draw(st.lists(st.sampled_from(KEYS), min_size=2, max_size=4, unique=True))
             return ['lru', [[k, node(d - 1)] for k in ks]]
+        if sel is not None and sel < 5:
+            count[0] += 1
+            mode = draw(st.sampled_from(STORE_MODES))
+            ks = draw(st.lists(st.sampled_from(KEYS), min_size=2, max_size=4, unique=True))
+            return ['store', mode, [[k, node(d - 1)] for k in ks]]
+        if ext and 80 <= r < 90 and draw(st.sampled_from(range(2))) == 0:
+            count[0] += 1
+            mode = draw(st.sampled_from(TOBJ_MODES))
+            ks = draw(st.lists(st.sampled_from(['a', 'k', 'b', 'p']), min_size=2, max_size=3, unique=True))
+            return ['tobj', mode, [[k, node(d - 1)] for k in ks]]
         if ext and 60 <= r < 80 and draw(st.sampled_from(range(3))) == 0:
             count[0] += 1
             items = [node(d - 1) for _ in range(draw(st.sampled_from([0, 1, 2, 2, 3])))]
@@ -258,7 +412,7 @@ def gen_graph(draw, depth=4, ext=False):
         return ['tuple', [node(d - 1) for _ in range(draw(st.integers(0, 2)))]]
 
     g = node(depth)
-    if g[0] not in ('rdict', 'rlist', 'robj', 'edict', 'lru', 'lsub'):
+    if g[0] not in ('rdict', 'rlist', 'robj', 'edict', 'lru', 'lsub', 'store', 'tobj'):
         count[0] += 1
         g = ['rdict', [['a', g], ['k', node(depth - 1)]]]
     return g
@@ -296,6 +450,24 @@ class Model(object):
     def __init__(self):
         self.order = {}
         self.enumerated = []
+        self.state = {}         # id(Store / TouchObj) -> the walk's own copy of its storage (key -> child, in key order)
+        self.selfmod = []       # (container, number of children, did a read of that enumeration change its key list)
+        self.expanded = []      # scalar-subclass instances with children that a ** expanded as DESCENDANTS
+
+    def storage(self, v):
+        """the walk's model of the storage of a Store / TouchObj: copied from the object (not through its reading
+        methods) the first time the walk touches it, from then on changed only by the walk's own reads"""
+        s = self.state.get(id(v))
+        if s is None:
+            if isinstance(v, Store):
+                s = tg.OrderedDict(Store._d.__get__(v))
+            else:
+                s = dict(object.__getattribute__(v, '__dict__'))
+            self.state[id(v)] = s
+        return s
+
+    def read_selfmod(self, v, k):
+        return read_effect(object.__getattribute__(v, '_mode'), self.storage(v), k)
 
     def keys(self, v):
         o = self.order.get(id(v))
@@ -315,6 +487,16 @@ class Model(object):
 def children(v, m=None):
     if m is None:
         m = Model()
+    if isinstance(v, SELFMOD):
+        # one child per key present when the step starts, in the order they have then
+        held = m.storage(v)
+        out, changed = [], False
+        for k in list(held):
+            before = list(held)
+            out.append(m.read_selfmod(v, k))
+            changed = changed or list(held) != before
+        m.selfmod.append((v, len(out), changed))
+        return out
     if isinstance(v, LRU):
         m.enumerated.append(v)
         # one child per key, keys as they are ordered when the step starts
@@ -326,6 +508,10 @@ def children(v, m=None):
                 continue            # access raises: that child is skipped, the others are kept
             out.append(dict.__getitem__(v, k))
         return out
+    if isinstance(v, SCALSUB):
+        # an attribute-style object (str / bytes are not iterated, numbers are not iterable): its attribute values
+        m.enumerated.append(v)
+        return list(v.__dict__.values())
     if isinstance(v, (str, bytes)):
         return []
     if isinstance(v, SEQSUB):
@@ -343,6 +529,11 @@ def children(v, m=None):
 
 
 def get(v, seg, m=None):
+    if isinstance(v, SELFMOD):
+        try:
+            return (m or Model()).read_selfmod(v, seg)
+        except KeyError:
+            raise (KeyError if isinstance(v, Store) else AttributeError)(seg)
     if isinstance(v, LRU):
         return (m or Model()).read(v, seg)
     if isinstance(v, dict):
@@ -372,7 +563,10 @@ def descendants(v, m=None):
         i += 1
         if id(it) not in seen:
             seen.add(id(it))
-            items.extend(children(it, m))
+            ch = children(it, m)
+            if ch and isinstance(it, SCALSUB):
+                m.expanded.append(it)
+            items.extend(ch)
         if len(items) > 200000:
             raise MemoryError('reference blow-up')
     return [v] + items
@@ -398,10 +592,19 @@ def refstar(v, segs, m=None):
 def enum_labels(m):
     """which of the generated special classes did a wildcard enumerate (with enough children for a loss to show)"""
     out = set()
+    for v, n, changed in m.selfmod:
+        if n >= 2 and changed:
+            out.add('enum-selfmod-store' if isinstance(v, Store) else 'enum-selfmod-obj')
+            out.add('enum-selfmod-' + object.__getattribute__(v, '_mode'))
+    if m.expanded:
+        out.add('starstar-expands-scalarsub')
     for v in m.enumerated:
         if isinstance(v, LRU):
             if len(v) >= 2:
                 out.add('enum-lru')
+        elif isinstance(v, SCALSUB):
+            if v.__dict__:
+                out.add('enum-scalarsub')
         elif len(v) >= 1:
             out.add('enum-seqsub-attrs' if v.__dict__ else 'enum-seqsub-bare')
             if isinstance(v, Pt):
@@ -409,22 +612,53 @@ def enum_labels(m):
     return sorted(out)
 
 
+def pristine(v):
+    """diagnosis only: a shallow copy of a Store / TouchObj as it was before its first read (other values: themselves)"""
+    if not isinstance(v, SELFMOD):
+        return v
+    mode = object.__getattribute__(v, '_mode')
+    if isinstance(v, Store):
+        c, src, dst = Store(mode), Store._d.__get__(v), None
+        dst = c._d
+    else:
+        c, src = TouchObj(), object.__getattribute__(v, '__dict__')
+        object.__setattr__(c, '_mode', mode)
+        dst = c.__dict__
+    for k, val in src.items():
+        if not (mode == 'mark' and k == 'seen'):
+            dst[k] = val
+    return c
+
+
 def blame(m):
     """diagnosis only (it names the bucket of a mismatch that was already established): the first special-class container
     of the walk whose own '*' enumeration differs from children()"""
-    for v in m.enumerated:
+    for v in [x[0] for x in m.selfmod] + m.enumerated:
+        name = ('-store' if isinstance(v, Store) else '-touchobj' if isinstance(v, TouchObj) else '-lru' if isinstance(v, LRU)
+                else '-scalarsub' if isinstance(v, SCALSUB) else '-seqsub')
+        v = pristine(v)
         exp = children(v)
         try:
-            got = glom.glom(v, '*')
+            got = glommer().glom(v, '*')
         except Exception:
-            return '-lru' if isinstance(v, LRU) else '-seqsub'
+            return name
         if not same_nested(got, exp, 1):
-            return '-lru' if isinstance(v, LRU) else '-seqsub'
+            return name
+    for v in m.expanded:
+        box = [v]
+        try:
+            got = glommer().glom(box, '**')
+        except Exception:
+            return '-scalarsub-below-starstar'
+        if not same_nested(got, descendants(box), 1):
+            return '-scalarsub-below-starstar'
     return ''
 
 
 def same_nested(a, b, levels):
     if levels == 0:
+        if isinstance(a, SCALSUB) or isinstance(b, SCALSUB):
+            return a is b           # (they carry attributes: the very object, not an equal one)
         return tg.same(a, b)
     if not (type(a) is list and type(b) is list and len(a) == len(b)):
         return False
@@ -465,6 +699,28 @@ def has_lru(g):
     return "'lru'" in repr(g)
 
 
+def has_store(g):
+    return "'store'" in repr(g)
+
+
+def has_selfmod(g):
+    r = repr(g)
+    return "'store'" in r or "'tobj'" in r
+
+
+def settled(snap):
+    """a snapshot without what the TouchObj fixtures do to themselves when read: the order of their attributes and the
+    attribute 'seen' (atoms are left out: every parent still names the identity of each of its children)"""
+    out = {}
+    for i, (tname, val) in snap[1].items():
+        if isinstance(val, str):
+            continue
+        if tname == 'TouchObj':
+            val = sorted(x for x in val if x[0] != ('a', 'seen'))
+        out[i] = (tname, val)
+    return (snap[0], out)
+
+
 def expect(g, segs):
     m = Model()
     try:
@@ -497,8 +753,16 @@ def check_read(recipe, ctx):
     miss_after = exp[0] == 'ok' and len(segs) > first + 1
     ctx.nontrivial(has_sharing(recipe['graph']) or nwild >= 2 or miss_after)
     reordering = has_lru(recipe['graph'])
+    selfmod = has_selfmod(recipe['graph'])
+    # (a graph with a Store is evaluated by the Glommer the type is registered with, every other one by glom.glom)
+    run = glommer().glom if has_store(recipe['graph']) else glom.glom
     for n, (name, spec) in enumerate(make_specs(segs)):
-        if n and reordering:
+        if n and selfmod:
+            # every spelling meets the stores / objects that note their first read as they were built
+            b = build_graph(recipe['graph'])
+            g = b.obj
+            snap = tg.snapshot(g)
+        if n and (reordering or selfmod):
             # the evaluation before this one may have left a self-re-ordering mapping in another order:
             # the expectation is taken from the graph as this evaluation finds it
             exp, m = expect(g, segs)
@@ -507,9 +771,9 @@ def check_read(recipe, ctx):
         try:
             if name == 's-rooted':
                 ctx.label('s-rooted')
-                got = ('ok', glom.glom({'unrelated': 1}, spec, scope={'root': g}))
+                got = ('ok', run({'unrelated': 1}, spec, scope={'root': g}))
             else:
-                got = ('ok', glom.glom(g, spec))
+                got = ('ok', run(g, spec))
         except PathAccessError as e:
             got = ('err', e)
         except tg.BudgetExceeded as e:
@@ -527,7 +791,8 @@ def check_read(recipe, ctx):
             raise Mismatch('spurious-error', '%s: expected %r, glom raised %r' % (where, exp[1], got[1]))
         if not same_nested(got[1], exp[1], nwild):
             raise Mismatch('wrong-entries' + blame(m), '%s: expected %r, got %r' % (where, exp[1], got[1]))
-        d = tg.snapshot_diff(snap, tg.snapshot(g))
+        after = tg.snapshot(g)
+        d = tg.snapshot_diff(settled(snap), settled(after)) if selfmod else tg.snapshot_diff(snap, after)
         if d:
             raise Mismatch('target-mutated', '%s: %s' % (where, d))
     ctx.outcome([segs, exp[0], repr(exp[1])[:100]])
@@ -538,15 +803,21 @@ def check_read(recipe, ctx):
 
 def gen_tree(draw, d, leaf='map', ext=False):
     """acyclic tree of recording containers whose leaves (depth d) are dicts / objects (or plain lists of numbers);
-    ext=True: inner containers are also list subclasses with an instance __dict__ and self-re-ordering mappings"""
+    ext=True: inner containers are also list subclasses with an instance __dict__, self-re-ordering mappings and
+    instances of str / bytes / int / float subclasses whose attributes hold the sub-trees"""
     if d <= 0 and leaf == 'list':
         return ['plist', [['i', draw(st.integers(0, 9))] for _ in range(draw(st.integers(0, 3)))]]
     if d <= 0:
         tag = draw(st.sampled_from(['rdict', 'rdict', 'robj']))
         ks = draw(st.lists(st.sampled_from(['x', 'y']), max_size=2, unique=True))
         return [tag, [[k, ['i', draw(st.integers(0, 9))]] for k in ks]]
-    tag = draw(st.sampled_from(['rdict', 'rlist', 'rlist', 'robj'] + (['lsub', 'lru'] if ext else [])))
+    tag = draw(st.sampled_from(['rdict', 'rlist', 'rlist', 'robj'] + (['lsub', 'lru', 'ssub'] if ext else [])))
     n = draw(st.integers(0, 3))
+    if tag == 'ssub':
+        # an inner node that is a str / int / ... subclass instance whose attributes hold the sub-trees
+        tag, val = draw(st.sampled_from(SCALSUB_VALUES))
+        ks = draw(st.lists(st.sampled_from(['a', 'b', 'k']), min_size=max(n, 1), max_size=max(n, 1), unique=True))
+        return [tag, val, [[k, gen_tree(draw, d - 1, leaf, ext)] for k in ks]]
     if tag == 'rlist':
         return ['rlist', [gen_tree(draw, d - 1, leaf, ext) for _ in range(n)]]
     if tag == 'lsub':
@@ -571,7 +842,7 @@ def gen_mutate(draw, ext=False):
             depth += 1
         segs.append('*')
         depth += 1
-    if draw(st.integers(0, 5)) == 0:
+    if draw(st.integers(0, 5)) == 0 or (ext and draw(st.sampled_from(range(5))) == 0):
         segs[0] = '**'
     if draw(st.sampled_from(range(4))) == 0:
         # the matched entries are themselves plain LISTS and the final segment is an index into them
@@ -729,10 +1000,17 @@ SUBS = [
     Sub('lazychildren', check_lazychildren, enum=enum_lazychildren),
     Sub('read', check_read, gen=gen_read_ext, quick=5000, thorough=15000,
         floors={'shared-or-cyclic': 0.2, 'starstar': 0.12, 'wild-2': 0.06, 'exp-ok': 0.5,
-                'enum-lru': 0.045, 'enum-seqsub-bare': 0.022, 'enum-seqsub-attrs': 0.03, 'enum-namedtuple-sub': 0.014}),
+                'enum-lru': 0.045, 'enum-seqsub-bare': 0.022, 'enum-seqsub-attrs': 0.03, 'enum-namedtuple-sub': 0.014,
+                # a wildcard enumerates a registered non-dict Store / an attribute object with >= 2 children whose reads
+                # change its key list during that very enumeration (by mode: key moved to the end / the front, entry added)
+                'enum-selfmod-store': 0.038, 'enum-selfmod-obj': 0.038, 'enum-selfmod-mark': 0.035, 'enum-selfmod-mte': 0.035,
+                'enum-selfmod-mtf': 0.008,
+                # a ** expands, as a DESCENDANT, an instance of a str / bytes / int / float subclass that has children
+                'starstar-expands-scalarsub': 0.027, 'enum-scalarsub': 0.035}),
     Sub('mutate', check_mutate, gen=gen_mutate_ext, quick=2500, thorough=8000,
         floors={'wild-2': 0.06, 'wild-3': 0.1, 'exp-ok': 0.3, 'list-entries-index-final': 0.08,
-                'enum-lru': 0.06, 'enum-seqsub-bare': 0.055, 'enum-seqsub-attrs': 0.03}),
+                'enum-lru': 0.06, 'enum-seqsub-bare': 0.05, 'enum-seqsub-attrs': 0.03,
+                'starstar-expands-scalarsub': 0.022, 'enum-scalarsub': 0.1}),
     fuzzrun.fuzz_sub('fuzz-path-text', 'c01-path-text', runs=20000, campaigns=4,
                      corpus=os.path.join(boot.VERIF, 'fuzz', 'corpus', 'c01-path-text'), replay_sub='read'),
 ]
